@@ -45,6 +45,17 @@ type Schema struct {
 
 func (s *Schema) Type(n string) *TypeDef { return s.byN[n] }
 
+// Index (re)builds the name index (for hand-built schemas).
+func (s *Schema) Index() {
+	s.byN = map[string]*TypeDef{}
+	for _, t := range s.Types {
+		s.byN[t.Name] = t
+	}
+	if s.Query != nil {
+		s.byN["Query"] = s.Query
+	}
+}
+
 type Ref struct{ Type, ID string }
 
 // Ent: Vals[field] is a JSON text (scalar), *Ref (nil = null) or []*Ref.
